@@ -49,6 +49,10 @@ def cases(tier):
         for s in itertools.product(range(1, n + 1), repeat=dim):
             for origin in ("default", "user"):
                 out.append({"kind": "image-axis", "dim": dim, "shape": list(s), "origin": origin})
+    # export to the Cartesian (VTK) layout: scalar and vector cell data
+    for dim in (1, 2, 3):
+        for s in [tuple([2, 3, 4][:dim]), tuple([3, 2, 2][:dim]), tuple([2] * dim)]:
+            out.append({"kind": "vtk", "dim": dim, "shape": list(s)})
     return out
 
 
@@ -128,7 +132,32 @@ def run_case(case, r):
                     r.check(back == c, cell + "/roundtrip", "Cartesian -> matrix -> Cartesian is the identity", got=back, want=c)
                 except (ValueError, AssertionError) as e:
                     r.fail(cell + "/roundtrip", "round trip usable", exception=repr(e))
+        # --- displacement vectors follow the same table (float64 sub-voxel vectors, single and batch)
+        for p, m in enumerate(mat):
+            c, sgn = conv[m]
+            for form in ("single", "batch"):
+                vec = np.zeros(dim)
+                vec[p] = 0.25
+                arg = vec.copy() if form == "single" else np.vstack([vec, 2 * vec, -vec]).copy()
+                keep = arg.copy()
+                got = np.asarray(cs.coordinate_vector(arg), dtype=float)
+                want = np.zeros_like(keep)
+                want[..., car.index(c)] = sgn * keep[..., p] * vs[p]
+                r.check(got.shape == want.shape and np.array_equal(got, want), f"C20/coordinate_vector/dim={dim}/axis={m}/{form}", "a voxel displacement along matrix axis m is a displacement of the same sign convention along its Cartesian partner", got=got, want=want)
+                r.check(np.array_equal(arg, keep), f"C20/coordinate_vector/dim={dim}/input-unchanged", "coordinate_vector leaves its argument unchanged")
+        # generic vector with all components
+        gv = np.array([0.25, -0.5, 1.5][:dim])
+        keep = gv.copy()
+        got = np.asarray(cs.coordinate_vector(gv), dtype=float)
+        want = np.zeros(dim)
+        for p, m in enumerate(mat):
+            want[car.index(conv[m][0])] = conv[m][1] * keep[p] * vs[p]
+        r.check(np.array_equal(got, want) and np.array_equal(gv, keep), f"C20/coordinate_vector/dim={dim}/generic", "all components at once", got=got, want=want)
         r.outcome(("tables", dim))
+        return
+
+    if case["kind"] == "vtk":
+        run_vtk(case, r)
         return
 
     if case["kind"] == "layout":
@@ -233,3 +262,81 @@ def _meta(im):
 
 def _meta_equal(a, b):
     return _meta(a) == _meta(b)
+
+
+def run_vtk(case, r):
+    """darsia.plotting.to_vtk with a recording stand-in for pyevtk (not installed here): the cell
+    data handed to the writer must be in Cartesian layout, component by component."""
+    import sys
+    import types
+
+    import darsia
+
+    dim, shape = case["dim"], tuple(case["shape"])
+    rec = {}
+
+    def gridToVTK(path, x, y, z, cellData=None, **kw):
+        rec.update(path=path, x=np.asarray(x), y=np.asarray(y), z=np.asarray(z), cellData=cellData)
+
+    pkg, hl = types.ModuleType("pyevtk"), types.ModuleType("pyevtk.hl")
+    hl.gridToVTK = gridToVTK
+    pkg.hl = hl
+    saved = {k: sys.modules.get(k) for k in ("pyevtk", "pyevtk.hl")}
+    sys.modules["pyevtk"], sys.modules["pyevtk.hl"] = pkg, hl
+    try:
+        img, vs = _img(shape, "user")
+        n = int(np.prod(shape))
+        vec = np.stack([1000.0 * (c + 1) + np.arange(1, n + 1, dtype=float).reshape(shape) for c in range(dim)], axis=-1)
+        from mc import env
+
+        path = __import__("os").path.join(env.scratch_dir(), f"c20-vtk-{dim}-{'x'.join(map(str, shape))}")
+        darsia.plotting.to_vtk(path, [("s", img, darsia.Format.SCALAR), ("v", vec.copy(), darsia.Format.VECTOR)])
+    finally:
+        for k, v in saved.items():
+            if v is None:
+                sys.modules.pop(k, None)
+            else:
+                sys.modules[k] = v
+    cell = f"C20/to_vtk/dim={dim}"
+    if not r.check("cellData" in rec and rec["cellData"] is not None, cell + "/called", "the writer is called with cell data"):
+        return
+    r.nontriv(case)
+    cs = img.coordinatesystem
+    car = "xyz"[:dim]
+    mn = np.asarray(cs.min_coordinate, dtype=float)
+    vsc = np.array([cs.voxel_size[c] for c in car])
+
+    def layout(arr):
+        """Reference Cartesian layout (padded to 3 axes) from the coordinate system."""
+        cshape = [1, 1, 1]
+        conv = CONV[dim]
+        for p, m in enumerate("ijk"[:dim]):
+            cshape[car.index(conv[m][0])] = shape[p]
+        out = np.zeros(cshape)
+        for v in np.ndindex(*shape):
+            centre = np.asarray(cs.coordinate(np.array(v) + 0.5), dtype=float)
+            xyz = list(np.floor((centre - mn) / vsc).astype(int)) + [0] * (3 - dim)
+            out[tuple(xyz)] = arr[v]
+        return out
+
+    s_out = np.asarray(rec["cellData"]["s"])
+    want = layout(img.img)
+    r.check(s_out.shape == want.shape and np.array_equal(s_out, want), cell + "/scalar", "scalar cell data is placed where the coordinate system puts each voxel", got=s_out, want=want)
+    v_out = rec["cellData"]["v"]
+    ok = isinstance(v_out, tuple) and len(v_out) == 3
+    if ok:
+        refs = [layout(vec[..., c]) for c in range(dim)]
+        for comp in v_out:
+            comp = np.asarray(comp)
+            if not np.any(comp):
+                continue
+            if not any(comp.shape == rf.shape and (np.array_equal(comp, rf) or np.array_equal(comp, -rf)) for rf in refs):
+                ok = False
+    r.check(ok, cell + "/vector", "every component of vector cell data is placed like scalar data (up to the documented sign / order of components)")
+    # grid lines: edges of the voxels along every Cartesian axis
+    for a, key in enumerate("xyz"[:dim]):
+        edges = np.sort(np.asarray(rec[key], dtype=float))
+        ext = want.shape[a]
+        wantedges = mn[a] + vsc[a] * np.arange(ext + 1)
+        r.check(edges.shape == wantedges.shape and np.allclose(edges, wantedges, rtol=0, atol=1e-12), cell + "/grid", "grid lines are the voxel edges along the Cartesian axis", axis=key, got=edges, want=wantedges)
+    r.outcome((case, s_out.tolist()))
